@@ -21,7 +21,7 @@ pub enum Fam {
     CoreAggregate,
     /// C08: `core_combine_public_key_shares`
     CombinePk,
-    /// C09: `core_partial_sign`, `core_combine_signature_shares`
+    /// C08: `core_partial_sign`, `core_combine_signature_shares`
     PartialSign,
     /// C10: commitment / proof / verify and their timestamp variants
     Pok,
@@ -59,8 +59,7 @@ fn fams(prop: &str) -> Vec<Fam> {
     match prop {
         "C01" => vec![Fam::Sign],
         "C04" => vec![Fam::CoreAggregate],
-        "C08" => vec![Fam::CombinePk],
-        "C09" => vec![Fam::PartialSign],
+        "C08" => vec![Fam::CombinePk, Fam::PartialSign],
         "C10" => vec![Fam::Pok],
         "C11" => vec![Fam::SignCrypt],
         "C12" => vec![Fam::SignCryptShares],
